@@ -179,6 +179,28 @@ pub(crate) fn hvcc_chroma_and_depths(sps: &[u8]) -> (u8, u8, u8) {
     parse_sps_chroma_and_depths(sps).unwrap_or((1, 0, 0))
 }
 
+/// The twelve bytes of the general part of profile_tier_level() in the SPS - profile space,
+/// tier, profile_idc, compatibility flags, constraint flags, level_idc - which `hvcC` repeats
+/// verbatim (ISO/IEC 14496-15 8.3.3.1.2). `None` if the SPS is too short to hold them.
+pub(crate) fn hvcc_general_profile_tier_level(sps: &[u8]) -> Option<[u8; 12]> {
+    // Drop the two-byte NAL header and the emulation prevention bytes; the general part
+    // follows the byte with sps_video_parameter_set_id / sps_max_sub_layers_minus1.
+    let mut rbsp = Vec::with_capacity(14);
+    let mut zeros = 0;
+    for &byte in sps.get(2..)? {
+        if zeros >= 2 && byte == 3 {
+            zeros = 0;
+            continue;
+        }
+        zeros = if byte == 0 { zeros + 1 } else { 0 };
+        rbsp.push(byte);
+        if rbsp.len() == 13 {
+            break;
+        }
+    }
+    rbsp.get(1..13)?.try_into().ok()
+}
+
 /// Front of seq_parameter_set_rbsp() (H.265 7.3.2.2.1), skipping profile_tier_level()
 /// (7.3.3) including its optional sub-layer part.
 fn parse_sps_chroma_and_depths(sps: &[u8]) -> Option<(u8, u8, u8)> {
